@@ -184,6 +184,14 @@ pub enum ParserError {
         file_ver: A2lVersion,
     },
 
+    #[error("{filename}:{error_line}: the blocks inside of block {block} starting on line {block_line} are nested too deeply")]
+    NestingTooDeep {
+        filename: String,
+        error_line: u32,
+        block: String,
+        block_line: u32,
+    },
+
     #[error("{filename}:{error_line}: /begin in block {block} is not followed by a valid tag")]
     InvalidBegin {
         filename: String,
